@@ -820,6 +820,9 @@ func (client *client) internalClose() {
 	}
 	putBufioReader(client.bufr)
 	putBufioWriter(client.bufw)
+	client.server.mu.Lock()
+	delete(client.server.conns, client)
+	client.server.mu.Unlock()
 	verifTrace(client.server, "closed", "conn", verifConn(client), "cid", client.opts.ClientID)
 	close(client.closed)
 
